@@ -12,7 +12,9 @@ Shared by C04, C05 (concurrent part), C07, C08.  Abstract and small on purpose (
 * the cache: per key a presence bit, a **generation** counter and the value of every
   generation (`val k g` = the last value written to the leaf object of generation `g`; it stays
   readable after the leaf was detached — `(*ctree.Leaf).Value()`).  A *handle* is `(k, g)`;
-* writers: a unit is `W1` (one tree write) followed by `W2` (the feed callback,
+* writers: a unit is `W1` (one tree write) followed by `W2` — except the *quiet* write `w1Quiet`
+  (event-driven suppression: a write that leaves the value unchanged is stored but not announced) —
+  (the feed callback,
   `cache.Target.GnmiUpdate`: `t.gnmiUpdate`/`t.gnmiRemove` then `t.client(nd)` →
   `subscribe.Server.Update` → `UpdateNotification` → `match.UpdateOnce` → `matchClient.Update` →
   `coalesce.Queue.Insert`).  The units between their `W1` and `W2` are the pool `pend`;
@@ -29,8 +31,10 @@ are the executable functions `shFire` / `subFire`, so `fire` is `Step` by constr
 namespace Gnmi
 namespace SubLTS
 
+/-- `SubscriptionList.Mode`; `other` = a value that is none of the three (the `default:` arm of the
+mode `switch` of `Subscribe`, reached after `HasTarget` and the ACL check) -/
 inductive Mode where
-  | stream | once | poll
+  | stream | once | poll | other
 deriving DecidableEq, Repr
 
 /-- final status of the RPC -/
@@ -77,7 +81,8 @@ structure Req (K T R : Type) where
   allow : T → Bool
   /-- `NewRPCACL` succeeds (or no ACL is installed) -/
   aclOk : Bool := true
-  /-- the first request passes the validation `switch` of `Subscribe` -/
+  /-- the first request passes the validation `switch` of `Subscribe` (a subscription list, a
+  prefix, a non-empty target; the mode is tested later, at `h4`) -/
   valid : Bool := true
 
 /-- the static part of the system -/
@@ -121,6 +126,9 @@ structure Shared (K V T R : Type) where
   pend : List (WUnit K R) := []
   /-- ghost: every tree write `(k, g, v)` in order -/
   wlog : List (K × Nat × V) := []
+  /-- ghost: every *quiet* write `(old, new)` in order: a `W1` that is not followed by a `W2`
+  (event-driven suppression: the new value is stored, nobody is told) -/
+  qlog : List (V × V) := []
 
 /-- the cache as a partial map -/
 def Shared.cache (sh : Shared K V T R) (k : K) : Option V :=
@@ -147,6 +155,13 @@ inductive ShLabel (K V T R : Type) where
   | tAdd (t : T)               -- `Cache.Add`
   | w1Upd (k : K) (v : V)      -- `gnmiUpdate`, existing leaf: `oldval.Update(n)`
   | w1Add (k : K) (v : V)      -- `gnmiUpdate`, new leaf: `t.t.Add(path, n)`
+  /-- `gnmiUpdate`, existing leaf, event-driven suppression: `oldval.Update(n)` stores the notification
+  (newer timestamp), then `value.Equal(old, new)` ⇒ `return nil`: no `t.client(nd)`, no `W2`.  The
+  test `value.Equal` is **not** a guard of the step (the LTS knows nothing about values): the step
+  logs `(old, new)` in the ghost `qlog`, and the theorems about values (`C04.converges`) speak about
+  that log — a superset of the code's behaviours; the code's runs are those whose `qlog` only holds
+  pairs of equal values. -/
+  | w1Quiet (k : K) (v : V)
   | w1Del (ks : List K)        -- `gnmiRemove`: `WalkDeleted` removes these leaves (root write lock)
   | w1Reg (r : R)              -- `Remove`: `delete(c.targets, t)`; `Reset`: `t.t.Delete([root])`
   | w2 (u : WUnit K R)         -- `t.client(nd)` for one pending unit
@@ -164,6 +179,12 @@ def shFire [DecidableEq T] (sys : Sys K T R) (sh : Shared K V T R) :
       some { sh with val := setFn sh.val k (setFn (sh.val k) (sh.gen k) v),
                      pend := sh.pend ++ [.upd k (sh.gen k)],
                      wlog := sh.wlog ++ [(k, sh.gen k, v)] }
+    else none
+  | .w1Quiet k v =>
+    if sh.present k = true ∧ sh.inflight sys k = false then
+      some { sh with val := setFn sh.val k (setFn (sh.val k) (sh.gen k) v),
+                     wlog := sh.wlog ++ [(k, sh.gen k, v)],
+                     qlog := sh.qlog ++ [(sh.val k (sh.gen k), v)] }
     else none
   | .w1Add k v =>
     if sh.present k = false ∧ sh.inflight sys k = false ∧ sh.hasT (sys.tgt k) = true then
@@ -195,7 +216,7 @@ inductive HPc where
   | h1      -- `stream.Recv` + validation switch
   | h2      -- `HasTarget`
   | h3      -- single-target ACL check
-  | h4      -- mode switch (`updates_only`: insert the sync marker)
+  | h4      -- mode switch (`updates_only`: insert the sync marker; unknown mode: InvalidArgument)
   | reg     -- `addSubscription`
   | spawn   -- `go processSubscription` / `go processPollingSubscription`, `go sendStreamingResults`
   | run     -- `<-errC`
@@ -214,7 +235,7 @@ inductive Snd (K V R : Type) where
   | off                              -- goroutine not started
   | idle                             -- about to call / blocked in `queue.Next`
   | got (i : Item K R) (d : Nat)     -- `Next` returned `(i, d)`
-  | sendSync                         -- in `stream.Send(subscribeSync)` (no timer)
+  | sendSync                         -- in `stream.Send(subscribeSync)`: timer armed (since the repair of D24)
   | sending (r : Resp K V R)         -- in `sendSubscribeResponse`: timer armed, in `stream.Send`
   | stopped                          -- returned
 deriving DecidableEq, Repr
@@ -293,6 +314,7 @@ def Sub.onShared (sys : Sys K T R) (rq : Req K T R) (b : Sub K V R) :
   | .tAdd _ => b
   | .w1Upd k v => { b with held := b.held ++ [(k, v)] }
   | .w1Add k v => { b with held := b.held ++ [(k, v)] }
+  | .w1Quiet k v => { b with held := b.held ++ [(k, v)] }
   | .w1Del ks =>
     { b with walker := b.walker.filter (fun k => !decide (k ∈ ks)),
              since := if b.walker = .done then b.since else b.since.filter (fun k => !decide (k ∈ ks)) }
@@ -353,6 +375,7 @@ def hFire (sys : Sys K T R) (rq : Req K T R) (sh : Shared K V T R) (b : Sub K V 
       | .stream =>
         let b1 := if rq.updatesOnly then b.ins .syncMarker else b
         { b1 with pc := if sys.swap then .spawn else .reg }
+      | .other => b.finish .invalid
       | _ => { b with pc := .spawn })
   | .reg =>
     -- swapped variant: the (sequential) walk has to be over
@@ -406,7 +429,7 @@ def subFire (sys : Sys K T R) (rq : Req K T R) (sh : Shared K V T R) (b : Sub K 
     match b.snd with
     | .got i d =>
       match mkResp sys sh d i with
-      | none => some { b with snd := .sendSync }
+      | none => some { b with snd := .sendSync, armed := true }
       | some (r, t) =>
         if rq.allow t then some { b with snd := .sending r, armed := true }
         else if endsStream sys rq i then some (b.finish .ok)
@@ -415,7 +438,7 @@ def subFire (sys : Sys K T R) (rq : Req K T R) (sh : Shared K V T R) (b : Sub K 
   | .sent =>
     if b.blocked then none else
     match b.snd with
-    | .sendSync => some { b with snd := .idle, sent := b.sent ++ [.sync] }
+    | .sendSync => some { b with snd := .idle, armed := false, sent := b.sent ++ [.sync] }
     | .sending r =>
       let b1 := { b with snd := .idle, armed := false, sent := b.sent ++ [r] }
       some (if endsStreamR sys rq r then b1.finish .ok else b1)
